@@ -172,7 +172,7 @@ def c20():
         traces.append(s.trace())
     chk.monitor(traces, source="gantt-charts-read-back")
     n0 = len(traces)
-    sizes = [1, 9, 10, 100, 105] + ([99, 130, 250] if chk.tier == "thorough" else [])
+    sizes = [1, 9, 10, 100, 105, 1001] + ([99, 130, 250, 999, 1000] if chk.tier == "thorough" else [])
     traces = []
     for k, n in enumerate(sizes):
         s = dsession.DSession(n0 + k + 1, [[{"ms": [1], "d": 1}]], [], ())
@@ -185,7 +185,7 @@ def c20():
         "TLC: frame i of n is loaded at position i for every n <= 260 under the naming scheme + file-name sort "
         "(the plain string sort is refuted from n = 100 on); traces: real Gantt charts of TLC-generated partial and "
         "complete schedules (zero durations, requested axis limits) read back bar by bar; the real "
-        "create_gantt_chart_gif run on histories of 1..105 (thorough: 250) dispatches and the written GIF decoded")
+        "create_gantt_chart_gif run on histories of 1, 9, 10, 100, 105 and 1001 dispatches and the written GIF decoded")
 
 
 CHECKS = {"C20": c20}
